@@ -14,8 +14,14 @@ predicate).  Thread entry points (callables handed to std::thread) are collected
 import collections
 from facts import Node, Inconclusive, strip_targs
 
-MUTEX_GUARDS = ('std::unique_lock', 'std::scoped_lock', 'std::lock_guard')
+MUTEX_GUARDS = ('std::unique_lock', 'std::scoped_lock', 'std::lock_guard', 'std::shared_lock')
 RW_GUARDS = {'tulz::rwp::ReadLock': 'R', 'tulz::rwp::WriteLock': 'W'}
+
+
+def guard_mode(cls):
+    """R (shared) / W (exclusive on a reader-writer lock) / X (exclusive on a plain mutex) for a guard class"""
+    if cls in RW_GUARDS: return RW_GUARDS[cls]
+    return 'R' if cls.startswith('std::shared_lock') else 'X'
 ASSIGN_OPS = {'=', '+=', '-=', '*=', '/=', '%=', '|=', '&=', '^=', '<<=', '>>='}
 # non-const std member functions that do not modify the container/pointer itself
 NONMUT = {'find', 'begin', 'end', 'cbegin', 'cend', 'rbegin', 'rend', 'front', 'back', 'at', 'get', 'operator*', 'operator->',
@@ -350,10 +356,14 @@ class Engine:
 
     def _lock_token(self, n, fr, mode):
         p = self.path_of(n, fr)
-        cls = n.d.get('class') if n.k == 'member' else None
-        name = n.d.get('name')
-        ftype = n.d.get('ftype') or n.d.get('decltype') or n.d.get('type') or ''
-        return (p, cls or '', name or '', mode, ftype.replace(' &', '').replace('&', '').strip())
+        m = n
+        while m is not None and (m.k in ('cast',) or (m.k == 'unop' and m.op in ('*', '&'))): m = m.n('sub')       # `*m_ptr`: the lock object the pointer member designates
+        if m is None: m = n
+        cls = m.d.get('class') if m.k == 'member' else None
+        name = m.d.get('name')
+        ftype = m.d.get('ftype') or m.d.get('decltype') or m.d.get('type') or ''
+        ftype = ftype.replace('const ', '').replace('*const', '').replace(' &', '').replace('&', '').replace('*', '').strip()
+        return (p, cls or '', name or '', mode, ftype)
 
     def _transfer(self, fr, B, L, guardvars, root, record):
         L = set(L)
@@ -374,7 +384,7 @@ class Engine:
                         if cls.startswith(MUTEX_GUARDS) or cls in RW_GUARDS:
                             args = [a for a in init.ns('args') if a is not None]
                             if args:
-                                tok = self._lock_token(args[0], fr, RW_GUARDS.get(cls, 'X'))
+                                tok = self._lock_token(args[0], fr, guard_mode(cls))
                                 guardvars[v['decl']] = tok
                                 if record:
                                     for held in L:
